@@ -285,6 +285,32 @@ example : fillColumn .nearest [some 1, none, none, none, some 5, none] = [some 1
     fillColumn .previous [none, some 2, none, none] = [none, some 2, some 2, some 2] ∧
     fillColumn .next [none, some 2, none, none] = [some 2, some 2, none, none] := by decide
 
+/-- **extrapolate** (`extrapolate(ar_coeffs, span, intercept=c)`, any AR order `p`, any number of variants, a span of `n ≥ 1`
+consecutive periods starting anywhere — inside the data, right after it, after a gap, before it):
+(1) no cell outside the span changes, so the observed history before the span is untouched;
+(2) every cell of the span satisfies `x_t = ρ_1 x_{t-1} + … + ρ_p x_{t-p} + c` (`arStep`, missing as soon as one of the `p`
+    lags is missing), where the lags are, most recent first, the cells already extrapolated in the result
+    `abs r (a+k-1) v … abs r a v` followed by the observed cells of the input before the span `abs s (a-1) v … abs s (a-p) v`
+    (`lagsBefore`): lag `i` multiplies `ρ_i`, not `ρ_{p+1-i}`. (`log=True` is not modelled.) -/
+theorem extrapolate_pointwise (s r : Series) (coeffs : List Rat) (c : Rat) (a : Int) (n : Nat) (hn : 1 ≤ n) (hI : Inv s)
+    (st : Int) (hs : s.start = some st) (h : s.extrapolate coeffs c (spanList a n) = .ok r) :
+    (∀ t v, ¬ (a ≤ t ∧ t < a + (n : Int)) → r.abs t v = s.abs t v) ∧
+    (∀ k v, k < n → v < s.nv →
+      r.abs (a + (k : Int)) v = arStep coeffs c
+        (((List.range k).map (fun (j : Nat) => r.abs (a + (j : Int)) v)).reverse ++ lagsBefore s a coeffs.length v)) :=
+  abs_extrapolate s r coeffs c a n hn hI st hs h
+
+/-- a start-less series is returned as it is -/
+theorem extrapolate_empty (s : Series) (coeffs : List Rat) (c : Rat) (serials : List Int) (hs : s.start = none) :
+    s.extrapolate coeffs c serials = .ok s := by
+  unfold Series.extrapolate; simp [hs]; rfl
+
+/-- missing-strictness: a hole among the `p` lags makes the whole extrapolation missing, and the series is left as it was
+(the lag order itself — with history 1, 2 and ρ = (0, 1) the span reads 1, 2, 1 — is exercised by the directed
+correspondence lines; `decide` cannot evaluate `Rat` arithmetic in the kernel) -/
+example : (⟨.Q, some 8080, 1, [[some 1], [none], [some 2]]⟩ : Series).extrapolate [0, 1] 0 [8083, 8084]
+    = .ok ⟨.Q, some 8080, 1, [[some 1], [none], [some 2]]⟩ := by decide
+
 /-! ## 6. Every operation keeps the invariant; arbitrary op sequences -/
 
 theorem pool_get_inv (p : Pool) (i : Nat) (s : Series) (hp : ∀ x ∈ p, Inv x) (h : p.get i = .ok s) : Inv s := by
